@@ -33,7 +33,8 @@ def digit (n : Nat) : Char :=
 
 def ofByte (b : UInt8) : List Char := [digit (b.toNat / 16), digit (b.toNat % 16)]
 
-def encode (bs : Bytes) : String := String.ofList (bs.flatMap ofByte)
+def encode (bs : Bytes) : String :=
+  (bs.foldl (fun (acc : String) b => (acc.push (digit (b.toNat / 16))).push (digit (b.toNat % 16))) "")
 
 def val (c : Char) : Option Nat :=
   if '0' ≤ c ∧ c ≤ '9' then some (c.toNat - 48)
@@ -41,13 +42,16 @@ def val (c : Char) : Option Nat :=
   else if 'A' ≤ c ∧ c ≤ 'F' then some (c.toNat - 55)
   else none
 
-def decodeChars : List Char → Option Bytes
-  | [] => some []
-  | [_] => none
-  | a :: b :: rest =>
-    match val a, val b, decodeChars rest with
-    | some x, some y, some r => some (UInt8.ofNat (x * 16 + y) :: r)
-    | _, _, _ => none
+/-- tail-recursive (input lines can be hundreds of kilobytes long) -/
+def decodeGo : List Char → Array UInt8 → Option Bytes
+  | [], acc => some acc.toList
+  | [_], _ => none
+  | a :: b :: rest, acc =>
+    match val a, val b with
+    | some x, some y => decodeGo rest (acc.push (UInt8.ofNat (x * 16 + y)))
+    | _, _ => none
+
+def decodeChars (cs : List Char) : Option Bytes := decodeGo cs #[]
 
 def decode (s : String) : Option Bytes := decodeChars s.toList
 
